@@ -267,7 +267,7 @@ func init() {
 	register(&Prop{
 		ID:         "C15",
 		Title:      "Emulated failures fail every data call, change nothing, and are reversible",
-		Decided:    "per client package: (R1) every DynamoDB data method (classified by SDK operation name) tests Client.forceFailureErr with the mutex held, and every instruction that touches client/table state lies on the nil edge of that test – so a failing call changes nothing because it never reaches state; (R2) the non-nil edge returns the configured error value itself with no output; (R3) BatchWriteItem does not short-circuit on the failure but routes every request through the client's own checked PutItem/DeleteItem, unconditionally for every request of every table, and its error handler turns a non-nil error into nil only after appending the request to the unprocessed map that is returned; (R4) the condition table has an entry for every FailureCondition constant with None ↦ nil, the three public switches reach the single writer of forceFailureErr with the right constants; (R5) the v1 and v2 summaries agree; WithContext wrappers are pure delegations.",
+		Decided:    "per client package: (R1) every DynamoDB data method (classified by SDK operation name) tests Client.forceFailureErr with the mutex held, and every instruction that touches client/table state lies on the nil edge of that test – so a failing call changes nothing because it never reaches state; (R2) the non-nil edge returns the configured error value itself with no output; (R3) BatchWriteItem does not short-circuit on the failure but routes every request through the client's own checked PutItem/DeleteItem, unconditionally for every request of every table, and its error handler turns a non-nil error into nil only after appending the request to the unprocessed map that is returned; (R4) the condition table has an entry for every FailureCondition constant with None ↦ nil, the three public switches reach the single writer of forceFailureErr with the right constants; (R5) the v1 and v2 summaries agree; WithContext wrappers are pure delegations; (R6) nothing a failing batch hands back is built on package-level storage shared between tables, calls or clients (= C18.R6).",
 		NotDecided: "equality of states before/after is never computed (the argument is that no state-touching instruction is reachable on the failure edge); behaviour of the SDK error types; value of the error message.",
 		Assumes:    []string{"data operations are identified by DynamoDB API operation names (PutItem, GetItem, DeleteItem, UpdateItem, Query, Scan, BatchWriteItem, BatchGetItem, Transact*, Execute*) and their WithContext variants"},
 		Rules: []RuleDef{
@@ -353,6 +353,7 @@ func init() {
 					}
 				}
 			}},
+			{ID: "R6", Desc: "the unprocessed lists of a failing batch are not built on shared package-level storage (= C18.R6)", Run: aliasRule("R6", c18R6, nil)},
 		},
 	})
 }
@@ -683,10 +684,30 @@ func c15R4(e *Engine) {
 				continue
 			}
 			got := ""
+			conditional := ""
 			instrs(f, func(in ssa.Instruction) {
 				c, ok := in.(ssa.CallInstruction)
 				if !ok || c.Common().StaticCallee() != setter {
 					return
+				}
+				// the switch acts whatever the current state is: the call is governed by nothing but guards whose other
+				// side panics (the client type assertion)
+				for b := in.Block(); b != nil && len(b.Preds) == 1; b = b.Preds[0] {
+					p := b.Preds[0]
+					ifi, isIf := p.Instrs[len(p.Instrs)-1].(*ssa.If)
+					if !isIf {
+						continue
+					}
+					other := p.Succs[0]
+					if other == b {
+						other = p.Succs[1]
+					}
+					if _, panics := other.Instrs[len(other.Instrs)-1].(*ssa.Panic); !panics {
+						conditional = "only when " + ifi.Cond.String() + " decides so (" + e.ipos(ifi) + ")"
+					}
+				}
+				if len(in.Block().Preds) > 1 {
+					conditional = "on some paths only (" + e.ipos(in) + ")"
 				}
 				arg := c.Common().Args[len(c.Common().Args)-1]
 				if _, isP := arg.(*ssa.Parameter); isP {
@@ -699,7 +720,7 @@ func c15R4(e *Engine) {
 					}
 				}
 			})
-			e.check(got == want[sw], "R4", role+"."+sw, e.pos(f.Pos()), "%s calls %s with %s (want %s)", sw, e.fname(setter), got, want[sw])
+			e.check(got == want[sw] && conditional == "", "R4", role+"."+sw, e.pos(f.Pos()), "%s calls %s with %s (want %s) unconditionally %s", sw, e.fname(setter), got, want[sw], conditional)
 		}
 	}
 	e.minCount("R4", 14)
